@@ -944,6 +944,10 @@ class DestHandler:
     def _deferred_lost_segment_handling(self) -> None:
         if not self._params.acked_params.deferred_lost_segment_detection_active:
             return
+        if self._params.completion_disposition == CompletionDisposition.CANCELED:
+            # The transaction was cancelled by the handling of the PDU which was just received
+            # (e.g. a filestore rejection): nothing is verified or requested any more.
+            return
         assert self._params.remote_cfg is not None
         assert self._params.fp.file_size_eof is not None
         if (
